@@ -72,7 +72,7 @@ class Result:
 _FRAME = re.compile(r"^\s*#(\d+) 0x[0-9a-f]+ in (\S+) (\S+?)(?::(\d+))?(?::\d+)?\s*$")
 
 
-def parse_sanitizer(stderr, repo="/repo"):
+def parse_sanitizer(stderr, repo=os.environ.get("VERIF_REPO", "/repo")):
     """Return (kind, function, summary_text) of the first ASan/UBSan/SEGV report or None."""
     lines = stderr.splitlines()
     kind = None
@@ -123,7 +123,7 @@ def parse_sanitizer(stderr, repo="/repo"):
 _TSAN_HDR = re.compile(r"WARNING: ThreadSanitizer: ([^(]+)\(pid")
 
 
-def parse_tsan(stderr, repo="/repo"):
+def parse_tsan(stderr, repo=os.environ.get("VERIF_REPO", "/repo")):
     """Split ThreadSanitizer reports; key = kind + sorted pair of innermost libqb functions."""
     out = []
     blocks = stderr.split("==================")
